@@ -36,7 +36,7 @@ CFG_DROP = '[snoopy]\nmessage_format = ' + FMT + '\nfilter_chain = only_uid:0;on
 def judge(x, n, k, drop):
     bad = []
     if x.timed_out:
-        return ['timeout']
+        return ['hang_nothing_runnable_in_the_process_tree' if getattr(x, 'hang', '') == 'hang' else 'timeout']
     if x.rc == 77:
         return ['deadlock']
     if x.rc == 79:
